@@ -1951,6 +1951,50 @@ theorem do_payload_checks_src (cfg : CheckCfg) (v : SrcLink.CdpRunningValidator)
       (by simp [SrcTie.startPkt]; omega) hok
     exact ⟨a.toAbsR, o⟩
 
+/-- **one packet through a link validator** (`LinkValidator::do_checks`, non-stave configurations): the model's `linkStep` is the source's
+    `do_rdh_checks` followed — when an ITS target is given and the payload is not empty — by `do_payload_checks`; the messages of the step
+    are those of the header part followed by those of the payload part, and the validator states stay related (header-id learnt, running
+    checker, payload validator). Both parts are translated from the source on every run; what this theorem takes from a reading of
+    `do_checks` is only their sequential composition (the target `match`, the `!payload.is_empty()` guard, one shared channel). -/
+theorem link_step_src (cfg : CheckCfg) (hst : cfg.stave = false) (lv : SrcLinkRdh.LinkValidator) (cv : SrcLink.CdpRunningValidator)
+    (s : LinkSt) (c : SrcRdh.RdhCru) (off : Nat) (payload : Bytes)
+    (hrun : lv.f_running_checks = cfg.running)
+    (hsan : lv.f_rdh_sanity_validator = SrcTie.mkValidator s.expectId (if cfg.itsChecks then some 32 else none))
+    (habs : SrcTie.runAbs lv.f_rdh_running_validator = s.run) (hwf : SrcTie.RunWf lv.f_rdh_running_validator)
+    (hfee : c.f_rdh0.f_fee_id.f_0 < 65536) (hcd : c.f_cruid_dw.f_0 < 65536)
+    (hcv : SrcTie.AbsR cfg cv s.cdp) (hp : payload.length < 2^64) (hoff : off + 64 + 65536 * 16 < 2^64)
+    (hlen : ∀ ws, cutPayload payload = some ws → ws.length < 65536)
+    (s' : LinkSt) (ms : List Msg) (hok : linkStep cfg s { offset := off, rdh := SrcTie.toModel c, payload := payload } = .ok (s', ms)) :
+    ∃ mA mB, ms = mA ++ mB ∧
+      SrcTie.outMsgs (lv.do_rdh_checks c off).2.f_out = SrcTie.outMsgs lv.f_out ++ mA ∧
+      (lv.do_rdh_checks c off).2.f_rdh_sanity_validator = SrcTie.mkValidator s'.expectId (if cfg.itsChecks then some 32 else none) ∧
+      SrcTie.runAbs (lv.do_rdh_checks c off).2.f_rdh_running_validator = s'.run ∧
+      SrcTie.RunWf (lv.do_rdh_checks c off).2.f_rdh_running_validator ∧
+      SrcTie.AbsR cfg (if cfg.itsChecks && !payload.isEmpty then SrcLink.do_payload_checks (c, payload, off) cv else cv) s'.cdp ∧
+      SrcTie.outMsgs (if cfg.itsChecks && !payload.isEmpty then SrcLink.do_payload_checks (c, payload, off) cv else cv).f_out =
+        SrcTie.outMsgs cv.f_out ++ mB := by
+  obtain ⟨h1, h2, h3, h4⟩ := C10.link_rdh_checks_src cfg lv s c off _ hrun hsan habs hwf hfee hcd
+  unfold linkStep at hok
+  simp only at hok
+  by_cases hits : (cfg.itsChecks && !payload.isEmpty) = true
+  · simp only [hits, if_true] at hok ⊢
+    cases hpc : payloadChecks cfg s.cdp off (SrcTie.toModel c) payload with
+    | error e => rw [hpc] at hok; cases hok
+    | ok r =>
+      obtain ⟨cdp', m3⟩ := r
+      rw [hpc] at hok
+      simp only [Except.ok.injEq, Prod.mk.injEq] at hok
+      obtain ⟨rfl, rfl⟩ := hok
+      obtain ⟨a, o⟩ := do_payload_checks_src cfg cv s.cdp c off payload hcv hst hp hoff hlen cdp' m3 hpc
+      refine ⟨_, m3, rfl, ?_, h1, ?_, h3, a, o⟩
+      · rw [h4]; cases hr : cfg.running <;> simp [List.append_assoc]
+      · rw [h2]; split <;> rfl
+  · simp only [hits, Bool.false_eq_true, if_false, Except.ok.injEq, Prod.mk.injEq] at hok ⊢
+    obtain ⟨rfl, rfl⟩ := hok
+    refine ⟨_, [], (List.append_nil _).symm, ?_, h1, ?_, h3, hcv, (List.append_nil _).symm⟩
+    · rw [h4]; cases hr : cfg.running <;> simp [List.append_assoc]
+    · rw [h2]; split <;> rfl
+
 /-- non-vacuity: a freshly built source validator stands for the model's state at the first word of a packet -/
 example : SrcTie.Abs { running := true }
     { f_running_checks_enabled := true, f_tracker := { f_payload_mem_pos := 64, f_gbt_word_counter := 1, f_gbt_word_padding_size_bytes := 0, f_is_start_of_data := true },
